@@ -9,6 +9,7 @@ import (
 	"go/constant"
 	"go/token"
 	"go/types"
+	"sort"
 	"strings"
 )
 
@@ -165,7 +166,8 @@ func c09Horizon(p *Prog, r *Report) {
 		return
 	}
 	info := fi.Pkg.TypesInfo
-	f := p.FlatOf(fi)
+	// helpers of the collector are spliced in: where the horizon is computed is not the rule's business
+	f := p.FlatInl(fi)
 	olds := f.CallSites(kTxRepoOldest)
 	cols := f.CallSites(kCoreDeleteOld)
 	if len(olds) != 1 || len(cols) != 1 {
@@ -173,61 +175,108 @@ func c09Horizon(p *Prog, r *Report) {
 		return
 	}
 	old, col := olds[0], cols[0]
-	// tx variable from Oldest
-	var txObj types.Object
-	if as, ok := f.Nodes[old.Node].Ast.(*ast.AssignStmt); ok && len(as.Lhs) == 2 {
-		txObj = objOf(info, as.Lhs[0])
-	}
 	args := col.Call.Args
 	idOK := len(args) >= 3 && exprObjKey(info, args[1]) == "internal/model.MainTxId"
 	r.Check(idOK, "C09.b", kCleanerDeleteOld+"#main-store", p.pos(col.Call), "collects in the main store (constant MainTxId)", "the collector is not pointed at the main store by the constant MainTxId")
-	horizonOK := false
-	if len(args) >= 3 {
-		if sel, ok := ast.Unparen(args[2]).(*ast.SelectorExpr); ok && sel.Sel.Name == "Seq" && objOf(info, sel.X) == txObj && txObj != nil {
-			horizonOK = true
-		}
+	as, ok := f.Nodes[old.Node].Ast.(*ast.AssignStmt)
+	if !ok || len(as.Lhs) != 2 || old.Kind != "assigned" || len(args) < 3 {
+		r.Undecided("C09.b", kCleanerDeleteOld+"#horizon-from-oldest", p.pos(old.Call), "the result of txRepo.Oldest is not bound to (transaction, error) variables")
+		return
 	}
-	r.Check(horizonOK, "C09.b", kCleanerDeleteOld+"#horizon-from-oldest", p.pos(col.Call), "horizon = Seq of the oldest registered transaction", "the horizon given to the collector is not the Seq of txRepo.Oldest()'s result: versions an open transaction still reads can be collected")
-	// fallback assignment only on the ErrTxNotFound path
-	if old.Kind == "assigned" {
-		st := f.ErrStatesFrom(old.Node, old.ErrVar)
-		okFallback := true
-		nFallback := 0
-		for _, n := range f.Nodes {
-			as, ok := n.Ast.(*ast.AssignStmt)
-			if !ok || len(as.Lhs) != 1 {
-				continue
+	txObj := objOf(info, as.Lhs[0])
+	// symbolic values: OLDEST (the transaction Oldest returned), OLDEST.Seq, FRESH@<world> (a number drawn now, in
+	// that world of Oldest's error), FRESHTX@<world> (a transaction value holding such a number)
+	vf := &valueFlow{f: f, info: info}
+	vf.Eval = func(s vfState, e ast.Expr) string {
+		switch x := ast.Unparen(e).(type) {
+		case *ast.CallExpr:
+			if p.callIs(fi.Pkg, x, kSeqNext) {
+				return "FRESH@" + s.World
 			}
-			target := objOf(info, as.Lhs[0])
-			if sel, isSel := as.Lhs[0].(*ast.SelectorExpr); isSel {
-				target = objOf(info, sel.X)
-			}
-			if target != txObj || n.ID == old.Node {
-				continue
-			}
-			nFallback++
-			states := st.at(n.ID)
-			if len(states) != 1 || states[0] != "is:fs_db.ErrTxNotFound" {
-				okFallback = false
-			}
-			// the replacement must be a fresh draw
-			fresh := false
-			ast.Inspect(as.Rhs[0], func(x ast.Node) bool {
-				if c, ok := x.(*ast.CallExpr); ok && p.callIs(fi.Pkg, c, kSeqNext) {
-					fresh = true
+		case *ast.SelectorExpr:
+			if x.Sel.Name == "Seq" {
+				switch v := s.Vals[objOf(info, x.X)]; {
+				case v == "OLDEST":
+					return "OLDEST.Seq"
+				case strings.HasPrefix(v, "FRESHTX@"):
+					return "FRESH@" + strings.TrimPrefix(v, "FRESHTX@")
 				}
-				return true
-			})
-			if !fresh {
-				okFallback = false
+			}
+		case *ast.CompositeLit:
+			for _, el := range x.Elts {
+				if kv, ok := el.(*ast.KeyValueExpr); ok {
+					if k, ok := kv.Key.(*ast.Ident); ok && k.Name == "Seq" {
+						if c, ok := ast.Unparen(kv.Value).(*ast.CallExpr); ok && p.callIs(fi.Pkg, c, kSeqNext) {
+							return "FRESHTX@" + s.World
+						}
+						if o := objOf(info, kv.Value); o != nil && strings.HasPrefix(s.Vals[o], "FRESH@") {
+							return "FRESHTX@" + strings.TrimPrefix(s.Vals[o], "FRESH@")
+						}
+					}
+				}
 			}
 		}
-		r.Check(okFallback && nFallback > 0, "C09.b", kCleanerDeleteOld+"#fallback-horizon", p.pos(old.Call), "a fresh draw replaces the horizon only when no transaction is registered",
-			"the horizon is replaced (or not replaced by a fresh draw) outside the errors.Is(err, ErrTxNotFound) path: with open transactions the collector uses a horizon newer than their snapshot points")
-		// other errors stop the collection
-		g, _, stt := f.GatedBy(old, []int{col.Node}, "is:fs_db.ErrTxNotFound")
-		r.Check(g, "C09.b", kCleanerDeleteOld+"#other-errors-return", p.pos(old.Call), "collection only after Oldest succeeded or reported no transaction", "the collector runs although txRepo.Oldest failed ("+strings.Join(stt, ",")+")")
+		return ""
 	}
+	vf.FieldStore = func(s vfState, x types.Object, field, rhs string) string {
+		if field == "Seq" && strings.HasPrefix(rhs, "FRESH@") {
+			return "FRESHTX@" + strings.TrimPrefix(rhs, "FRESH@")
+		}
+		return ""
+	}
+	type arrival struct{ world, val string }
+	arrivals := map[arrival]bool{}
+	vf.Visit = func(s vfState) {
+		if s.Node != col.Node {
+			return
+		}
+		v := ""
+		if o := objOf(info, args[2]); o != nil {
+			v = s.Vals[o]
+		} else {
+			v = vf.Eval(s, args[2])
+		}
+		arrivals[arrival{s.World, v}] = true
+	}
+	init := map[types.Object]string{}
+	if txObj != nil {
+		init[txObj] = "OLDEST"
+	}
+	vf.Run(old.Node, old.ErrVar, init)
+	fromOldest, fallbackOK, fallbackSeen, otherErr := true, true, false, ""
+	okSeen := false
+	var list []string
+	for a := range arrivals {
+		list = append(list, a.world+":"+a.val)
+		switch {
+		case a.world == "nil":
+			okSeen = true
+			if a.val != "OLDEST.Seq" {
+				fromOldest = false
+			}
+		case strings.HasPrefix(a.val, "FRESH@"):
+			if a.world != "is:fs_db.ErrTxNotFound" || a.val != "FRESH@is:fs_db.ErrTxNotFound" {
+				fallbackOK = false
+			} else {
+				fallbackSeen = true
+			}
+		}
+		if a.world == "any" || strings.HasPrefix(a.world, "is:") && a.world != "is:fs_db.ErrTxNotFound" || strings.HasPrefix(a.world, "as:") {
+			otherErr = a.world
+		}
+		if a.world == "is:fs_db.ErrTxNotFound" && !strings.HasPrefix(a.val, "FRESH@") {
+			fallbackOK = false
+		}
+		if a.world == "nil" && strings.HasPrefix(a.val, "FRESH@") {
+			fallbackOK = false
+		}
+	}
+	sort.Strings(list)
+	r.Tables["collector_horizon_arrivals"] = list
+	r.Check(fromOldest && okSeen, "C09.b", kCleanerDeleteOld+"#horizon-from-oldest", p.pos(col.Call), "horizon = Seq of the oldest registered transaction", "the horizon given to the collector is not the Seq of txRepo.Oldest()'s result: versions an open transaction still reads can be collected")
+	r.Check(fallbackOK && fallbackSeen, "C09.b", kCleanerDeleteOld+"#fallback-horizon", p.pos(old.Call), "a fresh draw replaces the horizon only when no transaction is registered",
+		"the horizon is replaced (or not replaced by a fresh draw) outside the errors.Is(err, ErrTxNotFound) path: with open transactions the collector uses a horizon newer than their snapshot points")
+	r.Check(otherErr == "", "C09.b", kCleanerDeleteOld+"#other-errors-return", p.pos(old.Call), "collection only after Oldest succeeded or reported no transaction", "the collector runs although txRepo.Oldest failed ("+otherErr+")")
 }
 
 func c09OnePop(p *Prog, r *Report) {
